@@ -13,8 +13,8 @@ impl Scenario for C20S {
     }
     fn count(&self, tier: Tier, _variant: &str) -> u64 {
         match tier {
-            Tier::Quick => 8000,
-            Tier::Thorough => 400_000,
+            Tier::Quick => 24_000,
+            Tier::Thorough => 800_000,
         }
     }
     fn rule(&self) -> &'static str {
